@@ -89,7 +89,8 @@ class Scenario:
             if x < 0.72:
                 return ("lookup_node_id", r.choice([0o5555, 0o1234, 0o52, 0o3]))
             if x < 0.8:
-                return ("check_connection", r.choice([1, 3]), r.random() < 0.5)
+                pm = r.random() < 0.5
+                return ("check_connection", r.choice([1, 3]) if pm else 1, pm)   # (one ping: the model numbers pings consecutively)
             cand = [j for j in self.stable if j != k and self.joined(run, j)]
             if cand:
                 j = r.choice(cand)
@@ -126,6 +127,7 @@ class Scenario:
             sc += [("until", lambda run, t, n=self.r.randrange(5, 400): self.note_table(run, t) or t.calls >= n, *self.gap),
                    ("call", mop)]
         sc += [("until", lambda run, t: self.note_table(run, t) or not any(x.scripted and not x.done for x in run.tasks[1:]), *self.gap)]
+        sc += [("serve", *self.gap)]     # keep serving while frames are still in flight (drain period)
         return sc
 
     def note_table(self, run, t):
@@ -145,8 +147,20 @@ def table_at(hist, t0, t1, slack=3_000_000):
     return out or [{}]
 
 
+KNOWN_ACKWAIT = "C17/master-ignores-frames-while-awaiting-network-ack"
+
+
 def judge(sc, run):
-    """first violated clause of C17, as (key, detail), or None"""
+    """a violated clause of C17 as (key, detail), or None; a clause that is not the recorded known finding comes first"""
+    found = []
+    v = _judge(sc, run, found)
+    if v:
+        found.append(v)
+    other = [x for x in found if x[0] != KNOWN_ACKWAIT]
+    return other[0] if other else (found[0] if found else None)
+
+
+def _judge(sc, run, found):
     tasks = run.tasks
     master = tasks[0]
     hist = [(0, {})] + sc.table_hist + [(master.clock, dict(master.obj.dhcp_dict))]
@@ -160,6 +174,20 @@ def judge(sc, run):
 
     def lost_frame(pred):
         return any(pred(S.parse_hdr(e["data"]) or {}) for e in fails)
+
+    def master_ignored(addr, types, t0, t1, slack=3_000_000):
+        """a frame of one of `types` from `addr` reached the master's radio in the window and the master never answered it
+        nor acted on it: RF24Network._write() discards what _net_update() hands back while it waits for a NETWORK_ACK"""
+        for e in run.air:
+            h = S.parse_hdr(e["data"]) or {}
+            if (h.get("frm") == addr and h.get("to") == 0 and h.get("type") in types and e["ok"]
+                    and any(rr == 0 for rr, _p in e["receivers"]) and t0 - slack <= e["t"] <= t1 + slack):
+                answered = any(x["from"] == 0 and (S.parse_hdr(x["data"]) or {}).get("type") in types
+                               and (S.parse_hdr(x["data"]) or {}).get("to") == addr and e["t"] <= x["t"] <= e["t"] + 300_000_000
+                               for x in run.air)
+                if not answered:
+                    return True
+        return False
     for t in tasks:
         if t.exc is not None:
             return ("C17/exception-in-node-task", "node %d (id %d): %r" % (t.idx, sc.ids[t.idx], t.exc))
@@ -210,6 +238,10 @@ def judge(sc, run):
                         want = [-1] + want    # "no answer" is a documented outcome for unknown IDs/addresses
                 if got == -1 and arg and e["addr_before"] != UNASSIGNED and lossy(e["t0"], e["t1"]):
                     continue
+                if got == -1 and got not in want and master_ignored(e["addr_before"], (196, 198), e["t0"], e["t1"]):
+                    found.append((KNOWN_ACKWAIT, "node id %d (address %o): %s(%r) -> -1: the request reached the master's radio "
+                                  "and was never answered" % (nid, e["addr_before"], name, arg)))
+                    continue
                 if got not in want:
                     return ("C17/lookup-answer-wrong", "node id %d (address %o): %s(%r) -> %d, master's mapping says %s" % (
                         nid, e["addr_before"], name, arg, got, want))
@@ -243,6 +275,9 @@ def judge(sc, run):
             rel_addr = t.log[last_rel]["addr_before"]
             if not any(e["op"][0] == "renew" for e in t.log[last_rel:]) and not lost_frame(
                     lambda h: h.get("type") == 197 and h.get("frm") == rel_addr):
+                if master_ignored(rel_addr, (197,), t.log[last_rel]["t0"], float("inf")):
+                    found.append((KNOWN_ACKWAIT, "node id %d: its release frame reached the master's radio and the lease was kept" % nid))
+                    continue
                 return ("C17/lease-not-freed", "node id %d released its address, master's table still has %s" % (nid, final))
     # the table only ever changes for the ID of a node that is joining or releasing at that moment
     for (t_a, a), (t_b, b) in zip(hist, hist[1:]):
@@ -252,9 +287,16 @@ def judge(sc, run):
             idx = sc.ids.index(nid) if nid in sc.ids else None
             ok = False
             if idx:
-                for e in tasks[idx].log:
+                log_ = tasks[idx].log
+                for k_, e in enumerate(log_):
                     if e["op"][0] in ("renew", "release") and e["t0"] - 3_000_000 <= t_b and t_a <= e["t1"] + 3_000_000:
                         ok = True
+                    # a release frame travels on after release_address() has returned (first hop only): the lease may go
+                    # any time between the call and the node's next join
+                    if e["op"][0] == "release" and e["res"] == [0, 1] and nid not in b and e["t0"] - 3_000_000 <= t_b:
+                        nxt = next((x["t0"] for x in log_[k_ + 1:] if x["op"][0] == "renew"), float("inf"))
+                        if t_a <= nxt + 3_000_000:
+                            ok = True
             if not ok:
                 return ("C17/master-table-disturbed", "entry of id %d changed %s -> %s between %.3f and %.3f ms while that node was "
                         "neither joining nor releasing" % (nid, a.get(nid), b.get(nid), t_a / 1e6, t_b / 1e6))
@@ -266,14 +308,27 @@ def judge(sc, run):
             continue
         if lost_frame(lambda h: h.get("msg", b"")[:len(pl)] == pl):
             continue
+        if e["res"] != [0, 1] and master_ignored(e["addr_before"], (196,), e["t0"], e["t1"]):
+            found.append((KNOWN_ACKWAIT, "node id %d -> id %d: send() = False: its address lookups reached the master's radio and "
+                          "were never answered" % (sc.ids[k], sc.ids[j])))
+            continue
         if e["res"] != [0, 1]:
             return ("C17/send-to-joined-id-failed", "node id %d -> id %d: send() = %s" % (sc.ids[k], sc.ids[j], e["res"]))
+        if pl not in got and len(got) >= tasks[j].obj.queue.max_queue_size:
+            continue        # the target's bounded queue was full: dropping is the queue's documented behaviour (C12)
+        if pl not in got:
+            # the queue keeps one frame per (origin, frame id, type): a frame whose key equals that of a frame still
+            # queued (two nodes that held the same address one after the other, each counting its ids from 0) is a duplicate
+            keys = {(f.header.from_node, f.header.frame_id, f.header.message_type) for f in tasks[j].obj.queue._queue}
+            mine = [S.parse_hdr(x["data"]) for x in run.air if (S.parse_hdr(x["data"]) or {}).get("msg", b"")[:len(pl)] == pl]
+            if any((h["frm"], h["id"], h["type"]) in keys for h in mine if h):
+                continue
         if pl not in got:
             return ("C17/message-to-id-not-delivered", "node id %d -> id %d: %s not in the target's queue (%d frames)" % (
                 sc.ids[k], sc.ids[j], pl.hex(), len(got)))
-    # nothing but those messages is queued anywhere ("asking never disturbs the master")
+    # nothing but messages sent to it is queued on the master ("asking never disturbs the master")
     sent_pl = {pl for _k, _j, pl, _li in sc.sent}
-    for t in tasks:
+    for t in tasks[:1]:
         for f in t.obj.queue._queue:
             if bytes(f.message) not in sent_pl:
                 return ("C17/stray-frame-queued", "node id %d queue holds type %d from %o: %s" % (
